@@ -216,16 +216,31 @@ def rule_isk(ctx) -> None:
     sg = ctx.own(CB, "IskCertificate", "create_isk_signature")
     ex = ctx.own(CB, "IskCertificate", "export")
 
-    def packs(fn):
-        return [(norm(c.args[0]), [norm(a) for a in c.args[1:]]) for c in sorted(A.calls_in(fn.node, "pack"), key=lambda c: c.lineno)]
-    ps, pe = packs(sg), packs(ex)
-    chk.decide(ps == pe and len(ps) == 2, "C03.isk-signed-prefix", f"{CB}::IskCertificate", "the header words that are signed are the header words that are exported (both layouts)", f"signed {ps} / exported {pe}", "", A.loc(CB, sg.node))
-    t = norm(sg.node)
-    ok = "data = key_record_data + pack(" in t and "data += self.isk_public_key_data + self.user_data" in t and "self.signature = self.signature_provider.get_signature(data)" in t
-    chk.decide(ok, "C03.isk-signed-prefix", sg.qual, "ISK signature covers root key record | ISK header | ISK public key | user data", "", "", A.loc(CB, sg.node))
-    te = norm(ex.node)
-    order = [te.find(x) for x in ("data += self.isk_public_key_data", "data += self.user_data", "data += self.signature")]
-    chk.decide(all(o >= 0 for o in order) and order == sorted(order), "C03.isk-signed-prefix", ex.qual, "export order: header | public key | user data | signature (signature last)", f"{order}", "", A.loc(CB, ex.node))
+    # what is signed and what is exported, per header layout, read off the symbolic paths (if/else, conditional expression, a shared
+    # helper, += chain or one expression all give the same part lists)
+    def flat(e):
+        return flat(e.left) + flat(e.right) if isinstance(e, ast.BinOp) and isinstance(e.op, ast.Add) else [norm(e)]
+    signed, exported = {}, {}
+    for q in A.spaths(sg.node):
+        for c in q.calls("get_signature"):
+            if norm(c.func) == "self.signature_provider.get_signature" and c.args:
+                signed.setdefault(q.assumes("self.offset_present", True), set()).add(tuple(flat(c.args[0])))
+    for q in A.spaths(ex.node):
+        if q.end == "return" and q.value is not None:
+            exported.setdefault((q.assumes("self.offset_present", True), q.assumes("self.user_data", True)), set()).add(tuple(flat(q.value)))
+    hdr = {True: "pack('<3L', self.signature_offset, self.constraints, self.flags)", False: "pack('<2L', self.constraints, self.flags)"}
+    probs = []
+    for op in (True, False):
+        s_want = {("key_record_data", hdr[op], "self.isk_public_key_data", "self.user_data")}
+        if signed.get(op) != s_want:
+            probs.append(f"offset_present={op}: signed {sorted(signed.get(op, []))}")
+        for ud in (True, False):
+            e_want = {tuple([hdr[op], "self.isk_public_key_data"] + (["self.user_data"] if ud else []) + ["self.signature"])}
+            if exported.get((op, ud)) != e_want:
+                probs.append(f"offset_present={op}, user data {ud}: exported {sorted(exported.get((op, ud), []))}")
+    chk.decide(not probs, "C03.isk-signed-prefix", f"{CB}::IskCertificate", "the header words that are signed are the header words that are exported (both layouts)", "; ".join(probs), "", A.loc(CB, sg.node))
+    chk.decide(not [p for p in probs if "signed" in p] and bool(signed), "C03.isk-signed-prefix", sg.qual, "ISK signature covers root key record | ISK header | ISK public key | user data", "; ".join(probs), "", A.loc(CB, sg.node))
+    chk.decide(not [p for p in probs if "exported" in p] and bool(exported), "C03.isk-signed-prefix", ex.qual, "export order: header | public key | user data | signature (signature last)", "; ".join(probs), "", A.loc(CB, ex.node))
     v21 = ctx.own(CB, "CertBlockV21", "export")
     tv = norm(v21.node)
     ok = "key_record_data = self.root_key_record.export()" in tv and "self.isk_certificate.create_isk_signature(key_record_data)" in tv and "return header_data + key_record_data + isk_cert_data" in tv
